@@ -988,6 +988,7 @@ struct UnitRun {
     toast_rows: u64,
     unparsed: u64,
     setup_skipped: u64,
+    handle_refreshed: u64,
 }
 
 fn path_name(param: bool) -> &'static str {
@@ -1043,7 +1044,7 @@ fn write_value(db: &Database, table: &str, id: usize, v: &Val, param: bool, upda
 /// Execute a batch.  `only`: restrict to these case indices (isolation / exclusion).
 /// `separate`: every case gets its own table `t<case>` (isolation from the other rows of the batch).
 fn run_unit(scratch: &std::path::Path, u: &Unit, only: &BTreeSet<usize>, name: &str, separate: bool) -> UnitRun {
-    let mut r = UnitRun { failures: vec![], proj: vec![], panicked: None, setup_err: None, written: 0, rejected: 0, toast_rows: 0, unparsed: 0, setup_skipped: 0 };
+    let mut r = UnitRun { failures: vec![], proj: vec![], panicked: None, setup_err: None, written: 0, rejected: 0, toast_rows: 0, unparsed: 0, setup_skipped: 0, handle_refreshed: 0 };
     let mut t = match TestDb::create(scratch, name) {
         Ok(t) => t,
         Err(e) => {
@@ -1091,6 +1092,10 @@ fn run_unit(scratch: &std::path::Path, u: &Unit, only: &BTreeSet<usize>, name: &
                 Out::Panic(_) => {
                     // the insert unit reports this; the database may be damaged: rerun without the case
                     r.setup_skipped += 1;
+                    if separate && t.reopen().is_ok() {
+                        r.handle_refreshed += 1;
+                        continue;
+                    }
                     r.panicked = Some(ci);
                     return r;
                 }
@@ -1122,6 +1127,11 @@ fn run_unit(scratch: &std::path::Path, u: &Unit, only: &BTreeSet<usize>, name: &
             }
             Out::Panic(p) => {
                 r.failures.push(fail("panic", format!("PANIC({})", vcore::util::clip(&p, 300))));
+                if separate && t.reopen().is_ok() {
+                    // the case has a table of its own: continue with a fresh handle instead of re-running the batch
+                    r.handle_refreshed += 1;
+                    continue;
+                }
                 r.panicked = Some(ci);
                 return r;
             }
@@ -1197,6 +1207,10 @@ fn run_unit(scratch: &std::path::Path, u: &Unit, only: &BTreeSet<usize>, name: &
                 Out::Err(e) => Some(("error".into(), format!("{q} => Err({})", vcore::util::clip(&e, 300)))),
                 Out::Panic(p) => {
                     r.failures.push(Failure { case: ci, when, what: "panic".into(), expected: expected.clone(), observed: format!("{q} => PANIC({})", vcore::util::clip(&p, 300)) });
+                    if separate && t.reopen().is_ok() {
+                        r.handle_refreshed += 1;
+                        continue;
+                    }
                     r.panicked = Some(ci);
                     return r;
                 }
@@ -1599,7 +1613,7 @@ fn multi_units(thorough: bool) -> Vec<(String, MultiUnit)> {
             for &param in &paths {
                 // without a PRIMARY KEY the id values play no role for the chunk keys: one alignment only
                 let hists: Vec<Hist> = all_hists.iter().filter(|h| if pk { thorough || h.align < 2 } else { h.align == 0 }).cloned().collect();
-                for (ci, chunk) in hists.chunks(130).enumerate() {
+                for (ci, chunk) in hists.chunks(70).enumerate() {
                     v.push((format!("multi_{}_{}_{}_{}", sig.replace(['(', ')'], "_"), if pk { "pk" } else { "nopk" }, path_name(param), ci), MultiUnit { tysig: sig, ddl, blob, pk, param, hists: chunk.to_vec() }));
                 }
             }
@@ -1650,6 +1664,7 @@ fn explore_unit(ctx: &Ctx, rep: &mut Reporter, u: &Unit, uname: &str, seen_sig: 
     rep.count("out_of_domain_values_rejected_cleanly", res.rejected);
     rep.count("undocumented_literal_forms_not_parsed", res.unparsed);
     rep.count("update_cases_skipped_initial_insert_failed", res.setup_skipped);
+    rep.count("handles_reopened_after_panic", res.handle_refreshed);
     rep.count("databases_reopened", 1);
     if u.update {
         for c in &u.cases {
@@ -1759,10 +1774,32 @@ impl Check for C11 {
         for k in ["toast_rows_written", "values_written", "databases_reopened", "out_of_domain_values_rejected_cleanly"] {
             rep.expect_nonzero(k);
         }
-        // heaviest first within the worker's slice would need global knowledge; plain round-robin on the unit index
+        // deterministic balanced partition (longest-processing-time first on an estimated weight); VERIF_SEED only
+        // rotates which worker takes which bucket
+        let mus = multi_units(thorough);
+        rep.bound("multi_row_histories", json!({"sizes": multi_sizes(thorough), "histories_per_table_kind": multi_hists(thorough).len(), "databases": mus.len()}));
+        let mut items: Vec<(u64, usize)> = Vec::new(); // (weight, index: < us.len() = unit, else multi unit)
+        for (i, (_, u)) in us.iter().enumerate() {
+            let bytes: usize = u.cases.iter().map(|c| u.ty.vals[c.1].bytes + c.0.map(|f| u.ty.vals[f].bytes).unwrap_or(0)).sum();
+            let per_case = if u.update { 30 } else { 6 };
+            items.push((400 + (u.cases.len() * per_case) as u64 + (bytes / 20_000) as u64, i));
+        }
+        for (i, (_, m)) in mus.iter().enumerate() {
+            items.push((400 + m.hists.len() as u64 * 45, us.len() + i));
+        }
+        items.sort_by(|a, b| b.0.cmp(&a.0).then(a.1.cmp(&b.1)));
+        let nb = ctx.workers.max(1);
+        let mut load = vec![0u64; nb];
+        let mut bucket_of: BTreeMap<usize, usize> = BTreeMap::new();
+        for (w, idx) in &items {
+            let b = (0..nb).min_by_key(|b| (load[*b], *b)).unwrap();
+            load[b] += *w;
+            bucket_of.insert(*idx, b);
+        }
+        let my_bucket = (ctx.worker + (ctx.seed % nb as u64) as usize) % nb;
         let mut seen_sig: BTreeMap<String, u32> = BTreeMap::new();
         for (i, (name, u)) in us.iter().enumerate() {
-            if !ctx.mine(i as u64) {
+            if bucket_of.get(&i) != Some(&my_bucket) {
                 continue;
             }
             if let Some(o) = only_ty {
@@ -1781,10 +1818,8 @@ impl Check for C11 {
             }
         }
         // multi-row histories
-        let mus = multi_units(thorough);
-        rep.bound("multi_row_histories", json!({"sizes": multi_sizes(thorough), "histories_per_table_kind": multi_hists(thorough).len(), "databases": mus.len()}));
         for (i, (name, m)) in mus.iter().enumerate() {
-            if !ctx.mine((us.len() + i) as u64) {
+            if bucket_of.get(&(us.len() + i)) != Some(&my_bucket) {
                 continue;
             }
             if let Some(o) = only_ty {
